@@ -58,6 +58,7 @@ type issued struct {
 }
 
 type world struct {
+	hadCrash bool // a power loss discarded commits: addresses the harness believes issued may be unknown to the wallet
 	discDuringRescan map[chainhash.Hash]bool // blocks a reorg disconnected while the start-up rescan was running
 	announced        []simchain.Announce     // confirmed-transaction announcements of all client sessions, in order
 	c02prev          map[chainhash.Hash]int  // C02 wallet level: credits per recorded transaction at the previous synchronised point
